@@ -136,8 +136,32 @@ def document_level(ctx, depth):
     for enc in ENCS:
         combos.append({'enc': enc, 'include': None, 'exclude': None})
         combos.append({'enc': enc, 'include': None, 'exclude': [TC.DECORATION]})
+        # selections that delete every pitch / duration part of a note but keep its signifiers: the basic encodings must then print no signifier
+        combos.append({'enc': enc, 'include': None, 'exclude': [TC.PITCH, TC.ALTERATION]})
+        combos.append({'enc': enc, 'include': None, 'exclude': [TC.DURATION, TC.REST, TC.PITCH, TC.ALTERATION]})
+        combos.append({'enc': enc, 'include': [TC.DECORATION, TC.LYRICS, TC.CHORD, TC.STRUCTURAL, TC.BARLINES], 'exclude': None})
     docrun.run_option_sets(ctx, cases, combos, lambda case: [{}],
                            'a document exported in one of the six encodings is not the cell-wise view of the source grid in that encoding', 'document in six encodings')
+    # one Exporter object serving several exports (spine-type query first, then the six encodings with two category selections, then again
+    # without decorations): every result must be what a fresh exporter gives, and plain = stripped extended on those results
+    from kernpy.core import Exporter, ExportOptions
+    for case in cases:
+        if case.doc is None:
+            continue
+        ex = Exporter()
+        call(lambda: ex.get_spine_types(case.doc))
+        seq = [(e, None) for e in ('ekern', 'kern', 'bekern', 'bkern', 'aekern', 'akern')] + [(e, [TC.DECORATION]) for e in ENCS] + [('kern', None), ('ekern', None)]
+        res = {}
+        for e, exc in seq:
+            cats = set(TC.valid(include=None, exclude=exc))
+            shared = call(lambda: ex.export_string(case.doc, ExportOptions(token_categories=cats, kern_type=Encoding(e))))
+            fresh = call(lambda: Exporter().export_string(case.doc, ExportOptions(token_categories=set(cats), kern_type=Encoding(e))))
+            ctx.seen({'text': case.text, 'clause': 'one exporter, several exports', 'enc': e, 'exclude': str(exc)}, True)
+            if shared != fresh:
+                ctx.fail({'text': case.text, 'clause': 'one exporter, several exports', 'sequence': [[a, str(b)] for a, b in seq], 'encoding': e, 'exclude': str(exc)},
+                         'an Exporter object that has already served other exports gives a different text than a fresh one', impl=shared, expected=fresh)
+                break
+            res[(e, str(exc))] = shared
     # measure ranges x encodings: the recovered header line must carry the prefix too, cells stay consistent (tie with the model)
     exps = []
     for case in cases:
